@@ -356,11 +356,9 @@ def _check_survivor(env, mb, fs, ran, pk, allowed, tag):
     versions = tuple(allowed)
     if env.mutant("expect_new_only"):
         versions = versions[-1:]
-    env.check(st != ABSENT, f"{tag}: the advertised autosave file exists")
-    env.check(st != PARTIAL, f"{tag}: the advertised autosave file is not partially written")
     env.check(
         st[0] == "complete" and st[1] in versions,
-        f"{tag}: the advertised autosave file holds the previous or the new snapshot",
+        f"{tag}: the advertised autosave file is a complete snapshot, the previous or the new one (not missing, not partial)",
     )
     # resume on the surviving file system (no further crash)
     fs.crash = None
@@ -374,13 +372,11 @@ def _check_survivor(env, mb, fs, ran, pk, allowed, tag):
         outcome = "partial"
     except FileNotFoundError:
         outcome = "missing"
-    env.check(outcome != "not-a-file" and outcome != "missing", f"{tag}: resume does not fail with 'Not a file'")
-    env.check(outcome != "partial", f"{tag}: resume does not load a partially written file")
     env.check(
         outcome == "ok" and len(ran) == 1 and ran[0].snapshot_version in versions and res == ("RESULTS-OF", ran[0].snapshot_version),
-        f"{tag}: resume continues from the previous or the new snapshot",
+        f"{tag}: resume neither raises 'Not a file' nor loads a partial file and continues from the previous or the new snapshot",
     )
-
+    return outcome
 
 def later_autosave(env):
     """Inductive step: any state in which the first autosave has completed."""
@@ -461,8 +457,8 @@ def first_autosave(env):
 def unrolled(env):
     """Reachability witness from the real initial state (empty directory): first
     autosave completes, the second one crashes at a symbolic point."""
-    crash = _crash_choice(env, 3, 5, [3])
-    fs = FS({}, crash)
+    crash = _crash_choice(env, 1, 5, [1])  # relative to the start of the second autosave
+    fs = FS({}, None)
     t0 = env.real("last_save_time", lo=0.0, hi=1.0e6)
     autosave_dt = env.real("autosave_dt", lo=10.0, hi=1000.0)
     env.assume(autosave_dt > 10.0, "autosave_dt > 10 s (enforced by MPSConfig)")
@@ -474,12 +470,13 @@ def unrolled(env):
         impl.save_simulation()
         if fs.ops == 0:
             return  # first autosave not due yet
-        env.check(fs.ops == 2, "first autosave = one write + one rename")
         env.check(fs.state(BASE) == complete("v_old"), "first autosave completed")
         if fs.state(BASE) != complete("v_old"):
             return
         impl.snapshot_version = "v_new"
         ops0 = fs.ops
+        if crash is not None:
+            fs.crash = (crash[0], ops0 + crash[1])
         crashed = False
         try:
             impl.save_simulation()
@@ -546,7 +543,7 @@ def cases(tier):
             "unrolled_two_autosaves",
             unrolled,
             covers=COVERS,
-            bounds={"pre_state": "empty directory, first autosave completes", "crash": "none | before op 3..8 | inside the second write"},
+            bounds={"pre_state": "empty directory, first autosave completes", "crash": "none | before op 1..6 of the second autosave | inside its write"},
             canaries=["expect_old_only"],
             conc_samples=4,
         ),
